@@ -169,6 +169,9 @@ def run(tier, seed, replay):
                "\".\".NewA", "\"a b\".New", "a/b/c.New", "a//b.New", "lib.New.More", "&Value", "&\"a/b\".Var.Field.Sub", "a/b.T{}", "&a/b.T{}", "T{}{}", "&&V",
                "AddDecorator", "CircularDeps", "GetInContext", "GetParam", "GetTaggedBy", "GetTaggedByInContext", "HotSwap", "IsTaggedBy", "OverrideParam", "OverrideService",
                "@db", "NewA()", "GetX\n", "a:b", "a,b", "a+b", "a#b", "a$b", "a\\b", "a'b", "a(b)", "\u00e9", "\u4e2d", "x" * 63,
+               # letters and digits outside ASCII that case folding, Unicode classes or normalisation could let through
+               "\u212a", "\u017f", "Get\u212a", "get\u017f", "\u212aey", "a\u017f", "\u0131", "\u0130", "\uff21", "\uff41b", "a\uff11", "\u0430", "\u0391", "a\u0663", "a\u00b2", "\u00aa", "a\u0301",
+               "\u212a/b.New", "a.\u017f", "\u017f-t", "a\u200b", "a\u00a0b", "\ufeffa",
                "*T", "**T", "*a/b.T", "*\"a/b\".T", "[]T", "a.b-c_d", "a--b", "a.", ".a", "é", "a\nb", "a\tb", "tag*", "*", "**", "x" * 64]
     specs = []
     plan = []   # per spec: (pos, carriers)
